@@ -52,7 +52,8 @@ Dispatch(e) ==
     [] e.act = "SetPlatformStage"  -> SetPlatformStage(e.p, e.st, e.x)
     [] e.act = "InPlaceGlobal"     -> InPlaceGlobal(e.p, e.x)
     [] e.act = "InPlaceStage"      -> InPlaceStage(e.p, e.st, e.x)
-    [] e.act = "AddComp"           -> AddComp(e.c, e.x)
+    [] e.act = "AddComp"           -> AddComp(e.c, e.x, e.how)
+    [] e.act = "ReplaceSame"       -> ReplaceSame(e.c, e.x)
     [] e.act = "ReplaceComp"       -> ReplaceComp(e.c, e.x)
     [] e.act = "DeleteComp"        -> DeleteComp(e.c)
     [] e.act = "MutateReturned"    -> MutateReturned
